@@ -83,6 +83,8 @@ pub struct Inner {
     pub timer_read_gen: u64,
     pub timer_done_gen: u64,
     pub fired: usize,
+    // which primitive owns a blocker (learnt at the primitive's `*.push` / `*.reg` point)
+    pub owner: HashMap<usize, &'static str>,
 }
 
 pub struct Ctrl {
@@ -136,6 +138,7 @@ impl Ctrl {
                 timer_read_gen: 0,
                 timer_done_gen: 0,
                 fired: 0,
+                owner: HashMap::new(),
             }),
             cv: Condvar::new(),
             gate: AtomicBool::new(false),
@@ -174,6 +177,7 @@ impl Ctrl {
         g.co.retain(|_, s| *s != CoSt::Done);
         g.vclock = if use_vclock { Some(g.vclock.unwrap_or(1_000_000_000)) } else { None };
         g.fired = 0;
+        g.owner.clear();
         g.timers.clear();
         g.trace.clear();
         g.notes.clear();
@@ -332,6 +336,17 @@ impl Ctrl {
         self.cv.notify_all();
     }
 
+    /// environment actions are part of the recorded trace
+    pub fn log_env(&self, what: &str, arg: &str, names: &[String]) {
+        let site: &'static str = match what {
+            "cancel" => "!cancel",
+            "tick" => "!tick",
+            _ => "!env",
+        };
+        let actor = names.iter().position(|n| n == arg).unwrap_or(usize::MAX);
+        self.lock().trace.push(Event { actor, site, obj: 0, a: 0, b: 0 });
+    }
+
     pub fn advance_clock(&self, to: u64) {
         let mut g = self.lock();
         if let Some(t) = g.vclock {
@@ -385,7 +400,20 @@ impl may::verif::Controller for Ctrl {
         if !g.gating {
             return;
         }
-        let cat = cat_of(site);
+        let mut cat = cat_of(site);
+        // SyncBlockers are registered at `*.push` points, plain Blockers at `*.reg` points; a
+        // SyncBlocker and the Blocker inside it may share an address, hence the tag bit
+        if a != 0 && site.ends_with(".push") {
+            g.owner.insert(a, cat);
+        } else if a != 0 && site.ends_with(".reg") {
+            g.owner.insert(a | 1, cat);
+        }
+        if cat == "sb" {
+            // points inside (Sync)Blocker belong to the primitive that owns the blocker
+            cat = g.owner.get(&obj).copied().unwrap_or(cat);
+        } else if cat == "blk" {
+            cat = g.owner.get(&(obj | 1)).copied().unwrap_or(cat);
+        }
         if !g.cats.iter().any(|c| *c == cat) {
             return;
         }
@@ -471,6 +499,22 @@ impl may::verif::Controller for Ctrl {
             "sb.new" => {
                 g.sb_new += 1;
             }
+            "th.park" => {
+                let t = ACTOR.with(|c| c.get());
+                if t != usize::MAX && t < g.actors.len() && !g.actors[t].is_co && g.gating && g.actors[t].st == ASt::Running {
+                    g.actors[t].st = ASt::Blocked(a | (1 << 62), false);
+                }
+            }
+            "th.wake" => {
+                let t = ACTOR.with(|c| c.get());
+                g.tp_unparked.insert(a | (1 << 62), false);
+                if t != usize::MAX && t < g.actors.len() && !g.actors[t].is_co && matches!(g.actors[t].st, ASt::Blocked(..)) {
+                    g.actors[t].st = ASt::Running;
+                }
+            }
+            "th.unpark" => {
+                g.tp_unparked.insert(a | (1 << 62), true);
+            }
             _ => {}
         }
         if g.want_notes.iter().any(|k| *k == kind) {
@@ -484,7 +528,9 @@ impl may::verif::Controller for Ctrl {
             };
             g.notes.push((who, kind, a, b));
         }
-        g.change += 1;
+        if !matches!(kind, "timer.idle" | "timer.park" | "timer.unpark" | "timer.thread" | "sb.new") {
+            g.change += 1;
+        }
         self.cv.notify_all();
         ret
     }
